@@ -121,6 +121,10 @@ def gen(rng):
     elif rng.random() < 0.25:
         opts.append('-i')
         stdin = '\n'.join(rng.choice(['y', 'n', 'Y', '', 'no', 'yes']) for _ in range(len(args) + 1))
+        if rng.random() < 0.12:
+            # the input ends (Ctrl-D, a pipe that dries up) before every question is answered: no answer is no consent
+            k_ = rng.randint(0, max(0, len(args) - 1))
+            stdin = ''.join(rng.choice(['y', 'n', 'Y', 'yes']) + '\n' for _ in range(k_)) + rng.choice(['', '', 'y', 'n'])
     if rng.random() < 0.3:
         opts.append(rng.choice(['-v', '-vv']))
     return {
